@@ -36,6 +36,9 @@ int main(int argc, char **argv) {
     return run(argc, argv, [&](const std::vector<std::string> &t) {
         const std::string &op = t[0];
         if (op == "R") { name = t[1]; cap = num(t[2]); R.reset(new Rx(name, cap)); Ev e("Reset"); e.str("name", name.rfind("cx:", 0) == 0 ? "custom" : name.c_str()).ints("cx", ctx_bytes(name)).i("cap", cap); e.end(); }
+        else if (op == "Reinit") {   // the same receiver object is initialised again (init / setbuf in the middle of a stream): it must forget the frame in progress
+            if (name == "legacy") v1_init(R->blk + G, cap); else R->rx->init(R->blk + G, cap);
+            Ev e("Reinit"); e.i("size", R->size()).bytes("gl", R->blk, G).bytes("gr", R->blk + G + cap, G); e.end(); }
         else if (op == "Feed") {
             // bytes that are none of the six context bytes and for which the receiver reports status 0 with intact guards are merged into one
             // RecvRun event (frames of tens of kilobytes are then judged in linear time); every other byte is an event of its own
